@@ -173,6 +173,15 @@ def run(check):
       r_e.ok('no per-frame construction to judge', loads.loc())
     for c in ctors:
       enc = next((kw.value for kw in c.keywords if kw.arg == 'encoding'), None)
+      if enc is None:
+        # cls(stream, **OPTIONS) with OPTIONS a dict literal bound once at module level
+        for kw in c.keywords:
+          if kw.arg is None and isinstance(kw.value, ast.Name):
+            vals = loads.module.globals.get(kw.value.id, [])
+            if len(vals) == 1 and isinstance(vals[0], ast.Dict):
+              for k_, v_ in zip(vals[0].keys, vals[0].values):
+                if isinstance(k_, ast.Constant) and k_.value == 'encoding':
+                  enc = v_
       if isinstance(enc, ast.Constant) and str(enc.value).lower().replace('-', '') == 'utf8':
         r_e.ok('unpickler built with encoding="utf-8"', loads.loc(c))
       else:
